@@ -8,6 +8,33 @@ use proptest::prelude::*;
 use proptest::strategy::BoxedStrategy;
 
 /// Monotone index map: u16 -> 0..len
+/// Bytes that sit directly next to a digit range of the radix in the ASCII table: the symbol whose
+/// digit value *equals* the radix (`:` for radix 10 - it follows `9` -, `G`/`g` for 16, `2` for 2),
+/// the neighbours of the three digit ranges (`/ : @ [ \` {`), and the largest digit with its high bit
+/// set. An off-by-one in a digit classifier or a careless case fold shows on exactly these bytes.
+pub fn boundary_bytes(radix: u32) -> Vec<u8> {
+    let mut v = vec![b'/', b':', b'@', b'[', b'`', b'{'];
+    let at = if radix < 10 { b'0' + radix as u8 } else if radix == 10 { b':' } else if radix < 36 { b'A' + (radix - 10) as u8 } else { b'[' };
+    v.push(at);
+    if at.is_ascii_uppercase() {
+        v.push(at.to_ascii_lowercase());
+    }
+    if radix == 36 {
+        v.push(b'{');
+    }
+    let top = if radix <= 10 { b'0' + (radix - 1) as u8 } else { b'A' + (radix - 11) as u8 };
+    v.push(top | 0x80);
+    v.push((top | 0x20) | 0x80);
+    let mut seen = std::collections::HashSet::new();
+    v.retain(|c| seen.insert(*c));
+    v
+}
+
+/// the single symbol whose digit value equals the radix (see `boundary_bytes`)
+pub fn radix_symbol(radix: u32) -> u8 {
+    if radix < 10 { b'0' + radix as u8 } else if radix == 10 { b':' } else if radix < 36 { b'A' + (radix - 10) as u8 } else { b'[' }
+}
+
 pub fn pick(i: u16, len: usize) -> usize {
     ((i as usize) * len) >> 16
 }
